@@ -97,6 +97,8 @@ template <class T> std::vector<Op<T>> ops() {
   o.push_back({"v_dot_dir", 3, 3, true, [](const Vv& a, const Vv& b) { return C(V3(a).Dot(DIR(b))); }, REF2(R::dot(a, b))});
   o.push_back({"v_cross_dir", 3, 3, true, [](const Vv& a, const Vv& b) { return C(V3(a).Cross(DIR(b))); }, REF2(R::cross(a, b))});
   o.push_back({"v_dyadic_dir", 3, 3, true, [](const Vv& a, const Vv& b) { return C(V3(a).Dyadic(DIR(b))); }, REF2(R::dyadic(a, b))});
+  o.push_back({"v_from_magnitude_direction", 1, 3, true, [](const Vv& a, const Vv& b) { return C(Vector<T>(a[0], DIR(b))); }, REF2((std::vector<std::decay_t<decltype(a[0])>>{a[0] * b[0], a[0] * b[1], a[0] * b[2]}))});
+  o.push_back({"pv_from_magnitude_direction", 1, 2, true, [](const Vv& a, const Vv& b) { return C(PlanarVector<T>(a[0], PDIR(b))); }, REF2((std::vector<std::decay_t<decltype(a[0])>>{a[0] * b[0], a[0] * b[1]}))});
   o.push_back({"sd_trace", 6, 0, false, [](const Vv& a, const Vv&) { return C(SD(a).Trace()); }, REF2(R::trace(R::symembed(a)))});
   o.push_back({"sd_det", 6, 0, false, [](const Vv& a, const Vv&) { return C(SD(a).Determinant()); }, REF2(R::det(R::symembed(a)))});
   o.push_back({"sd_cof", 6, 0, false, [](const Vv& a, const Vv&) { return C(SD(a).Cofactors()); }, REF2(R::sym6(R::cofactors(R::symembed(a))))});
